@@ -44,10 +44,12 @@ def floors(tier):
 
 def gen_cases(tier, seed):
     r = rng_for(seed, 'C11', tier)
-    n = 300 if tier == 'quick' else 1200
-    pool = QUICK_ITMDS if tier == 'quick' else THOROUGH_ITMDS
+    n = 300 if tier == 'quick' else 900
+    n3 = 0 if tier == 'quick' else 36    # third-order intermediates: minutes each
     cases = []
     for k in range(n):
+        pool = QUICK_ITMDS if k < n - n3 - 10 or k >= n - 10 else \
+            ['t3_2', 't1_3', 'p0_3_vv', 'p0_3_ov', 'p0_3_oo'] + QUICK_ITMDS[:3]
         nterms = r.choice([1, 1, 2])
         # F23 (open): the same long intermediate in two terms with different
         # prefactors - kept in a separate small bucket
@@ -90,6 +92,13 @@ def gen_cases(tier, seed):
                   'request': 'same', 'perturb': 'drop', 'once': False,
                   'pseed': 608748641, 'mseed': 3002, 'tier': tier, 'cost': 30,
                   'timeout': 1500})
+    # fixed exhibit of the open finding F29: p3^i_j from its own expansion
+    cases.append({'id': f'C11-{tier[0]}{seed}-F29-exhibit', 'kind': 'gen',
+                  'terms': [{'itmd': 'p0_3_oo', 'iseed': 1, 'denom': 0,
+                             'pref': '1', 'nlink': 0.0, 'free_ok': False}],
+                  'request': 'same', 'perturb': 'none', 'once': False,
+                  'pseed': 1, 'mseed': 0, 'tier': 'thorough', 'cost': 60,
+                  'timeout': 1500, 'no_reduce': True})
     for name in ['repo_t2_1', 'repo_long_complete', 'repo_long_mixed']:
         cases.append({'id': f'C11-{tier[0]}{seed}-{name}', 'kind': 'repo',
                       'name': name, 'mseed': seed * 1000, 'tier': tier,
@@ -255,6 +264,22 @@ def request_for(case, names):
     return kw
 
 
+def _requested(kw):
+    """names of the intermediates a factor_intermediates request covers"""
+    from adcgen import Intermediates
+    itm = Intermediates()
+    ton = kw.get('types_or_names')
+    if ton is None:
+        sel = dict(itm.available)
+    else:
+        sel = {}
+        for t in ([ton] if isinstance(ton, str) else ton):
+            sel.update(getattr(itm, t))
+    if kw.get('max_order') is not None:
+        sel = {n: c for n, c in sel.items() if c.order <= kw['max_order']}
+    return set(sel)
+
+
 def run_case(case, res):
     from adcgen import Expr, factor_intermediates, reduce_expr
     from sympy import Add, S
@@ -279,8 +304,9 @@ def run_case(case, res):
     E.set_target_idx(tg)
     fam = [FAMILY.get(x, x) for x in names]
     anti_used = any(t.get('_anti') for t in case['terms'])
+    # F23: a dropped term is a term with prefactor 0 (mixed prefactors)
     tags = ['mixed_prefactors_and_symmetric_remainder'] \
-        if anti_used and (case['perturb'] == 'pref'
+        if anti_used and (case['perturb'] in ('pref', 'drop')
                           or len(set(fam)) < len(fam)) else []
     res.fingerprint = fp(sorted(names), case['request'], case['perturb'],
                          case['once'], [round(t['nlink'], 1)
@@ -323,6 +349,9 @@ def run_case(case, res):
     P = Expr(Add(*xt), **Xf.assumptions)
     vp = ev.value(P.sympy, tg)
     kw = request_for(case, names)
+    if 'p0_3_oo' in names and 'p0_3_oo' in _requested(kw):
+        # F29 (open): p0_3_oo can not be factored from its own expansion
+        tags = tags + ['p0_3_oo_factored']
     try:
         F = lib_call(factor_intermediates, P.copy(), **kw)
     except Refused:
@@ -355,6 +384,8 @@ def run_case(case, res):
 
 def _reduce(case, res, E, v0, ev, tg, observed):
     from adcgen import reduce_expr
+    if case.get('no_reduce'):
+        return
     # reduce ------------------------------------------------------------------
     try:
         R = lib_call(reduce_expr, E.copy(),
